@@ -266,10 +266,10 @@ func VerifC10TilePath(level int, maxN int) {
 
 // VerifC10ParsePath: for path strings built from the layout template with symbolic characters,
 // parsing either fails or TilePath re-creates exactly the same string.
-// kind: 0 = "tile/<L>/", 1 = "tile/data/", 2 = "tile/names/"; groups = number of 3-digit groups; partial: 0/1.
+// kind: 0 = "tile/<L>/", 1 = "tile/data/", 2 = "tile/names/", 10-12 = the same with one of ten non-canonical prefixes; groups = number of 3-digit groups; partial: 0/1.
 func VerifC10ParsePath(kind, groups, partial int) {
 	var p string
-	switch kind {
+	switch kind % 10 {
 	case 0:
 		p = "tile/" + verifNondetString("level", 1) + "/"
 	case 1:
@@ -288,6 +288,12 @@ func VerifC10ParsePath(kind, groups, partial int) {
 	}
 	if partial == 1 {
 		p += ".p/" + verifNondetString("width", 2)
+	}
+	if kind >= 10 {
+		// the same layouts with a non-canonical prefix in place of "tile/"
+		rest := p[len("tile/"):]
+		alts := []string{"", "/", "tile", "tile//", "/tile/", "Tile/", "tile/8/", "tile/tile/", "tile/./", "x/"}
+		p = alts[verifConcretize(verifChoice("prefix", len(alts)))] + rest
 	}
 	t, err := ParseTilePath(p)
 	if err != nil {
